@@ -397,10 +397,10 @@ def run(ctx, facts):
     ctx.floor("C11 seeding sites", s, 1)
     occurrence_rule(ctx, facts)
     st = store_rules(ctx, facts)
-    ctx.floor("C11 store writes", st, 4)
+    ctx.floor("C11 store writes", st, 3)
     store_track(ctx, facts)
     sg = signature_rules(ctx, facts)
-    ctx.floor("C11 create_signature instances", sg, 5)
+    ctx.floor("C11 create_signature instances", sg, 4)
     resetbefore(ctx, facts)
     from . import C02
     MT = "maxvaluetrack::MaxValueTracker::<V>::"
